@@ -22,8 +22,10 @@
                        batchCommandsCh and fails the async entries in it (fix 000f10e); nothing is fetched or sent afterwards
      XCore l           a core step; Submit/Build/DropCanceled/NoConn only happen through the steps above, sends need a
                        live send loop, InitFail hits built entries, an async call does not watch batchConn.closed once
-                       it is enqueued (no Abort EClosed), CloseFail (failAsyncRequestsOnClose) and QueueFail (the async sender's re-check
-                       of batchConn.closed after enqueueing, fix 000f10e) hit async entries *)
+                       it is enqueued (no Abort EClosed), CloseFail (failAsyncRequestsOnClose) hits async entries; QueueFail only happens
+                       inside XSubmit (the async sender's ONE re-check of batchConn.closed right after enqueueing, fix 000f10e)
+                       and inside XSendExit (the drain)
+     XIdleExit         batchSendLoop returns because the idle timer fired (builder empty, conn not closed): nothing is drained *)
 From Coq Require Import List Arith Bool.
 Import ListNotations.
 From Verif Require Import BatchRPC.Model.
@@ -45,6 +47,7 @@ Inductive xlabel :=
 | XClean
 | XNoConn
 | XSendExit
+| XIdleExit
 | XWake
 | XCore (l : label).
 
@@ -90,7 +93,8 @@ Definition core_allowed (x : sys) (l : label) : bool :=
   | InitFail c => sendloop x && match e_st (ent (core x) c) with Built _ => true | _ => false end
   | Store _ | FailSent _ | Restart => sendloop x
   | Abort c k => match k with EClosed => negb (asy x c) | _ => true end
-  | CloseFail c | QueueFail c => asy x c
+  | CloseFail c => asy x c
+  | QueueFail _ => false
   | _ => true
   end.
 
@@ -107,7 +111,10 @@ Definition xstep (x : sys) (l : xlabel) : option sys :=
   match l with
   | XSubmit c h p a =>
       match step (core x) (Submit c h) with
-      | Some st => Some (mkSys st (c :: chq x) (inb x) (updn (pri x) c p) (updb (asy x) c a) (sendloop x) (ready x))
+      | Some st =>
+          (* the async sender re-checks batchConn.closed once, right after it has enqueued the entry *)
+          let st' := if a && closed st then match step st (QueueFail c) with Some s2 => s2 | None => st end else st in
+          Some (mkSys st' (c :: chq x) (inb x) (updn (pri x) c p) (updb (asy x) c a) (sendloop x) (ready x))
       | None => None
       end
   | XFetch c =>
@@ -141,6 +148,9 @@ Definition xstep (x : sys) (l : xlabel) : option sys :=
            | None => None
            end
       else None
+  | XIdleExit =>
+      if sendloop x && negb (closed (core x)) && match inb x with [] => true | _ => false end
+      then Some (mkSys (core x) (chq x) (inb x) (pri x) (asy x) false false) else None
   | XWake =>
       if sendloop x && match inb x with [] => false | _ => true end
       then Some (mkSys (core x) (chq x) (inb x) (pri x) (asy x) (sendloop x) true) else None
